@@ -4,7 +4,7 @@
    a wrapper takes the wrong lock, drops or reorders an argument, drops the delegated value, delegates to a
    differently named method, or the plain API gains a method nobody classified.  Then ./check C17 reports the
    broken theorem and searches for a concrete failing call / schedule on the running code. *)
-From Coq Require Import List String Bool.
+From Coq Require Import List Bool.
 From PyCasbin Require Import Base SyncedBase Synced SyncedProofs.
 From PyCasbinGen Require Import SyncedGen.
 Import ListNotations.
@@ -46,7 +46,7 @@ Qed.
 (* with the lock modes of today's table, every callable wrapper is a disciplined call of the machine, for ANY
    semantics of the Enforcer methods that respects the hand classification *)
 Theorem synced_disciplined :
-  forall (state local : Type) (mstep : string -> local -> state -> local * state),
+  forall (state local : Type) (mstep : text -> local -> state -> local * state),
     respects_classes state local mstep ->
     forall m, callable synced_table m = true -> disciplined (table_mode synced_table) mstep m.
 Proof. intros. eapply table_disciplined; eauto. exact discipline. Qed.
@@ -54,11 +54,11 @@ Proof. intros. eapply table_disciplined; eauto. exact discipline. Qed.
 (* hence every concurrent execution of SyncedEnforcer calls (as lock-mode-annotated calls of the machine,
    with today's lock modes) is linearizable *)
 Theorem synced_linearizable :
-  forall (state local ret : Type) (start : string -> local) (mstep : string -> local -> state -> local * state)
-         (len : string -> nat) (result : string -> local -> ret),
+  forall (state local ret : Type) (start : text -> local) (mstep : text -> local -> state -> local * state)
+         (len : text -> nat) (result : text -> local -> ret),
     respects_classes state local mstep ->
-    forall (s0 : state) (progs : list (list string)),
-      (forall m, In m (List.concat progs) -> callable synced_table m = true) ->
+    forall (s0 : state) (progs : list (list text)),
+      (forall m, In m (concat progs) -> callable synced_table m = true) ->
       forall tr C, exec (table_mode synced_table) start mstep len result (init s0 progs) tr = Some C ->
         exists ord, linearization (table_mode synced_table) start mstep len result s0 progs tr C ord.
 Proof.
